@@ -572,6 +572,7 @@ class TcpConn:
             return self.rr_reply(h, mr_reply(service, ST_CONN_FAIL, (0x0315,)), info)
         rsegs = segs[:-2]
         if any(s[0] != "port" for s in rsegs):
+            log.v("C09", "connection-path-not-route-plus-router", f"Forward Open connection path {segs!r}: segments other than port segments before the message router", data[o:o + 60])
             return self.rr_reply(h, mr_reply(service, ST_CONN_FAIL, (0x0315,)), info)
         route = tuple((s[1], s[2] if isinstance(s[2], int) else s[2].decode("ascii")) for s in rsegs)
         dev = t.device_for(route)
